@@ -341,10 +341,16 @@ def Machine.init (fuel : Nat) (P : Prog) (sr : UInt64) : Res Machine :=
   | .error e => .error e
   | .ok σ => .ok ⟨σ, SNode.empty, 0⟩
 
-partial def flattenVal : Val → List UInt64
+mutual
+/-- the output words of a value (closures occupy no output word) -/
+def flattenVal : Val → List UInt64
   | .num b => [b]
-  | .tup vs => vs.foldr (fun v acc => flattenVal v ++ acc) []
+  | .tup vs => flattenVals vs
   | .clo .. => []
+def flattenVals : List Val → List UInt64
+  | [] => []
+  | v :: vs => flattenVal v ++ flattenVals vs
+end
 
 /-- one dsp call: inputs in, output words out -/
 def Machine.step (fuel : Nat) (P : Prog) (sr : UInt64) (m : Machine) (inputs : List UInt64) :
